@@ -110,7 +110,7 @@ def guard_lookup(ctx, prog):
         return "%s,%s" % (k, "weak(result)" if weak else show(v)[:40])
     acts = [dtab.Action("compute", lambda t: q.callee_is(t, "IncrState::within_scope", "State::within_scope")),
             dtab.Action("insert", lambda t: q.callee_is(t, "HashMap::insert"), d_ins)]
-    tb = dtab.table(C, syms, acts)
+    tb = dtab.table(C, syms, acts, path_sensitive=True)
     for (ck, up), res in sorted(tb.items()):
         got = dtab.summarize(res)
         ctx.site(R, C, "(%s,%s) -> %s" % (ck, up, got))
